@@ -44,8 +44,9 @@ ASSUMPTIONS = [
     "own local address; no real sockets ('with real loopback sockets' is outside: a solver cannot drive the kernel)",
     "connect model as in the module docstring; A = max EALREADY answers per attempt (bounds); an attempt's fate is fixed "
     "by whether the server listens when the attempt starts; a black-holed attempt never completes",
-    "integer time; the stamp advances by delta in [0,D] before each service call and (A+2)*D < T, i.e. a connect "
-    "attempt is faster than the reconnect timeout (otherwise the timer-driven reopen can starve every attempt)",
+    "integer time; the stamp advances by delta in [0,D] before each service call and a connect attempt is faster "
+    "than the reconnect timeout (otherwise the timer-driven reopen starves every attempt): (A+2)*D < T in the "
+    "A=1 shards, and the tight (A+1)*D < T in the '-wide' shards (A=0, D=T-1: service period up to T-1)",
     "liveness bound: connected at some call <= e + A + 4 where e = first call >= u with stamp >= stamp(u) + T; "
     "schedules too short to contain that call make no liveness claim",
     "a bare tcp Client is only exercised with failed connection attempts: reacting to a cut off of an established "
@@ -176,11 +177,14 @@ def check_connected(sym, who, c, model, when):
               "ha=%r socket=%r" % (c.ha, c.cs.getpeername()))
 
 
-def h(sym, who, scenario, N, A, D_, Tmax, umax, idle=None):
+def h(sym, who, scenario, N, A, D_, Tmax, umax, idle=None, Tmin=None):
     key = "C27/%s/" % who
     # T is a selector: a symbolic T meets the float literal in `self.timeout > 0.0` and gave mixed Int/Real
     # queries that z3 left unknown; the stamp increments stay genuinely symbolic
-    Tmin = (A + 2) * D_ + 1
+    if Tmin is None:
+        Tmin = (A + 2) * D_ + 1
+    # an attempt (EINPROGRESS, <=A x EALREADY, 0) spans A+1 stamp increments: it must fit into one timeout
+    sym.check((A + 1) * D_ < Tmin, "C27/harness/attempt-not-faster-than-timeout")
     T = Tmin + sym.choice("T", Tmax - Tmin + 1)
     clock = D.Clock(0)
     reconn = scenario != "noreopen"
@@ -264,6 +268,23 @@ def obligations(tier):
                               budget=600 if quick else 3600,
                               covers=["deadline-inside-schedule", "reconnected", "reopened"],
                               bounds=dict(bounds, time_since_timer_restart=["0", "T//2", "T+1"][idle])))
+        # wide increments: connect needs exactly two connect_ex calls (A=0) and the service period ranges up to
+        # T-1, so a reopen that costs a service call of its own (period in [T/2, T)) starves every attempt
+        wT = 4
+        wu = 2 if who == "Patron" else umax     # Patron reopens and connects in one call: the server must still
+        wN = wu + 8                             # be down then for an attempt to be left hanging
+        wb = dict(service_calls=wN, max_EALREADY=0, delta="0..%d per call (symbolic)" % (wT - 1),
+                  timeout="%d (selector)" % wT, server_up_call="0..%d (symbolic)" % wu, bound="connected by call e+4")
+        wkw = dict(who=who, scenario="fail" if who == "Client" else "loss", N=wN, A=0, D_=wT - 1,
+                   Tmax=wT, Tmin=wT, umax=wu)
+        wcov = ["deadline-inside-schedule", "reconnected", "reopened"]
+        if who == "Client":
+            out.append(Ob("Client/fail-wide", h, wkw, budget=600 if quick else 3600, covers=wcov, bounds=wb))
+        else:
+            for idle in range(3):
+                out.append(Ob("%s/loss-wide-idle%d" % (who, idle), h, dict(wkw, idle=idle),
+                              budget=600 if quick else 3600, covers=wcov,
+                              bounds=dict(wb, time_since_timer_restart=["0", "T//2", "T+1"][idle])))
         out.append(Ob("%s/noreopen" % who, h, dict(who=who, scenario="noreopen", N=3 if quick else 5, A=A, D_=D_,
                                                   Tmax=Tmax, umax=0),
                       budget=300 if quick else 1800, covers=["noreopen"],
